@@ -14,7 +14,7 @@ import (
 	"sort"
 	"strconv"
 	"strings"
-	"time"
+	"sync"
 )
 
 type ReplayCase struct {
@@ -115,6 +115,7 @@ const replayTmpl = `package %s
 import (
 	"encoding/json"
 	"fmt"
+	"os"
 	"sort"
 	"testing"
 	"time"
@@ -134,7 +135,11 @@ func TestVerifReplay(t *testing.T) {
 	cases := []vReplayCaseT{
 %s
 	}
+	only := os.Getenv("VERIF_CASE")
 	for _, c := range cases {
+		if only != "" && c.name != only {
+			continue
+		}
 		var last string
 		for it := 0; it < c.repeat; it++ {
 			vParams = c.params
@@ -217,7 +222,22 @@ func RunReplays(repo, harnessDir, pkgSub string, cases []ReplayCase, keepDir str
 		fmt.Fprintf(&sb, "\t\t{name: %q, fn: %s, vals: %s, params: %s, repeat: %d, wantID: %q, timeout: %d},\n",
 			c.Name, fn, goLit(c.Vals), paramsLit(c.Params), rep, c.WantID, to)
 	}
-	src := fmt.Sprintf(replayTmpl, pkgName, sb.String())
+	tmpl := replayTmpl
+	if pkgSub == "wsjson" {
+		r := strings.NewReplacer(
+			"vParams = c.params", "websocket.VerifSetParams(c.params)",
+			"vReset(c.vals)", "websocket.VerifReset(c.vals)",
+			"_, ok := r.(vAssumeViolated); ok", "websocket.VerifIsAssumeViolated(r)",
+			"range vReachedIDs", "range websocket.VerifReached()",
+			"range vFailures", "range websocket.VerifFailures()",
+			"\"failures\": vFailures", "\"failures\": websocket.VerifFailures()",
+			"vReplayShort", "websocket.VerifReplayShort()",
+			"\"observed\": vObserved", "\"observed\": websocket.VerifObserved()",
+			"\t\"time\"\n)", "\t\"time\"\n\n\t\"nhooyr.io/websocket\"\n)",
+		)
+		tmpl = r.Replace(tmpl)
+	}
+	src := fmt.Sprintf(tmpl, pkgName, sb.String())
 	testFile := filepath.Join(dir, "zz_verif_replay_test.go")
 	if err := os.WriteFile(testFile, []byte(src), 0o644); err != nil {
 		return nil, "", err
@@ -243,28 +263,48 @@ func RunReplays(repo, harnessDir, pkgSub string, cases []ReplayCase, keepDir str
 	if err := os.WriteFile(ovFile, ovb, 0o644); err != nil {
 		return nil, "", err
 	}
-	total := 120
-	for _, c := range cases {
-		r := c.Repeat
-		if r < 1 {
-			r = 1
-		}
-		to := c.Timeout
-		if to < 1 {
-			to = 20
-		}
-		total += to
-		_ = r
-	}
-	cmd := exec.Command("go", "test", "-v", "-vet=off", "-count=1", "-overlay", ovFile, "-run", "^TestVerifReplay$", "-timeout", fmt.Sprintf("%ds", total), ".")
-	cmd.Dir = pkgDir
-	cmd.Env = append(os.Environ(), "GOFLAGS=-mod=mod", "GOPROXY=off", "GOSUMDB=off", "GOTOOLCHAIN=local")
+	// build the test binary once, then run every case in its own process, several at a time
+	bin := filepath.Join(dir, "replay.test")
+	env := append(os.Environ(), "GOFLAGS=-mod=mod", "GOPROXY=off", "GOSUMDB=off", "GOTOOLCHAIN=local")
+	build := exec.Command("go", "test", "-c", "-o", bin, "-vet=off", "-overlay", ovFile, ".")
+	build.Dir = pkgDir
+	build.Env = env
 	var out bytes.Buffer
-	cmd.Stdout = &out
-	cmd.Stderr = &out
-	t0 := time.Now()
-	runErr := cmd.Run()
-	_ = t0
+	bo, runErr := build.CombinedOutput()
+	out.Write(bo)
+	if runErr == nil {
+		var mu sync.Mutex
+		var wg sync.WaitGroup
+		sem := make(chan struct{}, 8)
+		for _, c := range cases {
+			c := c
+			to := c.Timeout
+			if to < 1 {
+				to = 20
+			}
+			rep := c.Repeat
+			if rep < 1 {
+				rep = 1
+			}
+			wg.Add(1)
+			sem <- struct{}{}
+			go func() {
+				defer wg.Done()
+				defer func() { <-sem }()
+				cmd := exec.Command(bin, "-test.run", "^TestVerifReplay$", "-test.v", "-test.timeout", fmt.Sprintf("%ds", to*rep+60))
+				cmd.Dir = pkgDir
+				cmd.Env = append(append([]string{}, env...), "VERIF_CASE="+c.Name)
+				o, err := cmd.CombinedOutput()
+				mu.Lock()
+				out.Write(o)
+				if !bytes.Contains(o, []byte("VERIF-CASE")) && os.Getenv("SYMGO_DEBUG") != "" {
+					fmt.Fprintf(os.Stderr, "replay case %s produced no result: err=%v\n%s\n", c.Name, err, tail(string(o), 1500))
+				}
+				mu.Unlock()
+			}()
+		}
+		wg.Wait()
+	}
 	res := map[string]*ReplayResult{}
 	re := regexp.MustCompile(`(?m)^VERIF-CASE (.*)$`)
 	for _, mm := range re.FindAllStringSubmatch(out.String(), -1) {
@@ -279,10 +319,21 @@ func RunReplays(repo, harnessDir, pkgSub string, cases []ReplayCase, keepDir str
 			Iter     int      `json:"iter"`
 		}
 		if err := json.Unmarshal([]byte(mm[1]), &o); err != nil {
+			if os.Getenv("SYMGO_DEBUG") != "" {
+				fmt.Fprintf(os.Stderr, "replay result line does not parse: %v: %s\n", err, truncate(mm[1], 400))
+			}
 			continue
 		}
 		res[o.Name] = &ReplayResult{Name: o.Name, Ran: true, Failures: o.Failures, Panic: o.Panic, Hang: o.Hang, Short: o.Short,
 			Observed: o.Observed, Reached: o.Reached, Iter: o.Iter, Raw: mm[1]}
+	}
+	if os.Getenv("SYMGO_DEBUG") != "" {
+		fmt.Fprintf(os.Stderr, "replay: %d cases, %d result lines, %d parsed\n", len(cases), len(re.FindAllStringSubmatch(out.String(), -1)), len(res))
+		for _, c := range cases {
+			if res[c.Name] == nil {
+				fmt.Fprintf(os.Stderr, "  missing %s (%s)\n", c.Name, c.Fn)
+			}
+		}
 	}
 	if keepDir != "" {
 		os.MkdirAll(keepDir, 0o755)
